@@ -3,6 +3,7 @@ package props
 import (
 	"go/ast"
 	"regexp"
+	"strings"
 
 	"verifcheck/an"
 )
@@ -235,5 +236,104 @@ func c14(c *an.Ctx) {
 			f.BranchReturns(r, an.AtomIs("SHARD_MARKED", false), an.ReturnsBool(0, false), "an unmarked shard ⇒ canDelete() == false")
 			f.AtomRename = nil
 		}
+	}
+}
+
+func init() {
+	old := All["C14"].Run
+	All["C14"].Run = func(c *an.Ctx) {
+		old(c)
+		c14deleteOnlyTheShard(c)
+		c14indexGroupNewestFirst(c)
+	}
+	All["C14"].Rules += " R5 R6"
+	addLevel("C14", "DeleteShard removes only paths obtained from the shard object it looked up (never paths matched in a directory listing); the time range of an index is taken from the NEWEST index group whose id span contains it (id spans of groups overlap after a scale-out).")
+}
+
+// c14deleteOnlyTheShard — C14.R5.  Retention deletes a shard through Engine.DeleteShard.  What is
+// removed from disk must be that shard's own directories, i.e. paths handed out by the shard
+// object that was looked up under the id.  Paths found by scanning directories and matching names
+// (a decimal id is a prefix of other ids: 1, 10–19, 100…) remove live shards' data.
+func c14deleteOnlyTheShard(c *an.Ctx) {
+	const E = "engine"
+	r := c.Rule("C14.R5", "K-PROVENANCE", E+":(*EngineImpl).DeleteShard — every path it removes from disk comes from the shard object found under the shard id")
+	rm := obj(r, "lib/fileops:RemoveAll")
+	if rm == nil {
+		return
+	}
+	// DeleteShard and the unexported helpers only it calls
+	n := 0
+	var check func(src *an.FuncSrc, depth int)
+	seen := map[*an.FuncSrc]bool{}
+	check = func(src *an.FuncSrc, depth int) {
+		if src == nil || seen[src] || depth > 2 {
+			return
+		}
+		seen[src] = true
+		f := c.P.Fn(src)
+		if f == nil {
+			return
+		}
+		for _, s := range f.Find(an.MCall("fileops.RemoveAll", rm)).List {
+			n++
+			ce := s.Node.(*ast.CallExpr)
+			arg := f.Canon(ce.Args[0])
+			if !strings.Contains(arg, ".shards[") && !strings.Contains(arg, "GetDataPath()") && !strings.Contains(arg, "GetWalPath()") {
+				r.Fail(src.Name()+": removes a path not taken from the shard", c.P.Pos(ce.Pos()), "%s removes %s: the path does not come from the shard object looked up under the id (GetDataPath/GetWalPath), so what is deleted is decided by names on disk", src.Name(), arg)
+			}
+		}
+		ast.Inspect(src.Decl.Body, func(m ast.Node) bool {
+			ce, ok := m.(*ast.CallExpr)
+			if !ok {
+				return true
+			}
+			if fn := an.Callee(src.Pkg.TypesInfo, ce); fn != nil && !fn.Exported() {
+				if cs := c.P.Src(fn); cs != nil && cs.Pkg == src.Pkg {
+					check(cs, depth+1)
+				}
+			}
+			return true
+		})
+	}
+	src := c.P.FuncSpec(E + ":EngineImpl.DeleteShard")
+	if src == nil {
+		r.Unresolved(E + ":EngineImpl.DeleteShard")
+		return
+	}
+	check(src, 0)
+	r.AddSites(n)
+	r.Floor(2, "on-disk removals of DeleteShard")
+}
+
+// c14indexGroupNewestFirst — C14.R6.  The end time baked into a series index (which decides when
+// retention may delete it) is the end of the index group the index belongs to.  After a scale-out
+// every existing group gets a new index, so the id spans [first id, last id] of the groups overlap;
+// the owner is the NEWEST group whose span contains the id — found by walking the groups from the
+// end, not by bisection over spans that are not disjoint.
+func c14indexGroupNewestFirst(c *an.Ctx) {
+	const M = "lib/util/lifted/influx/meta"
+	r := c.Rule("C14.R6", "K-LOOPSELECT", M+":(*RetentionPolicyInfo).getIndexGroupTimeRange — the owner group of an index is searched from the newest group backwards")
+	f := fn(r, M+":RetentionPolicyInfo.getIndexGroupTimeRange")
+	if f == nil {
+		return
+	}
+	desc := false
+	bisect := false
+	ast.Inspect(f.Body, func(m ast.Node) bool {
+		switch x := m.(type) {
+		case *ast.ForStmt:
+			if inc, ok := x.Post.(*ast.IncDecStmt); ok && inc.Tok.String() == "--" {
+				desc = true
+			}
+		case *ast.CallExpr:
+			if fn := an.Callee(f.Info, x); fn != nil && fn.Pkg() != nil && fn.Pkg().Path() == "sort" && strings.HasPrefix(fn.Name(), "Search") {
+				bisect = true
+			}
+		}
+		return true
+	})
+	r.AddSites(1)
+	if bisect || !desc {
+		r.Fail(f.Name+": search order", c.P.Pos(f.Body.Pos()), "getIndexGroupTimeRange no longer walks the index groups from the newest backwards (descending loop: %v, bisection: %v): with overlapping id spans an index resolves to an older group and inherits its (earlier) end time — retention deletes it while its shards are still in their window", desc, bisect)
 	}
 }
